@@ -27,6 +27,7 @@ SCENARIOS = {
     # pid -> list of (name, argv, counts-as-evaluations)
     "C07": [("frame-search", ["frame-search"]), ("frame-deep", ["frame-deep", "200000"])],
     "C08": [("frame-search", ["frame-search"]), ("conn-search", ["conn-search"]), ("decimal-search", ["decimal-search", "10000000"])],
+    "C10": [("frame-search", ["frame-search"]), ("frame-deep", ["frame-deep", "200000"]), ("server-hostile", ["server-hostile"])] + [("server-search", ["server-search", str(i)]) for i in range(4)],
     "C06": [("frame-search", ["frame-search"]), ("conn-search", ["conn-search"])] + [("server-search", ["server-search", str(i)]) for i in range(24)],
 }
 KNOWN_SCENARIOS = {
@@ -49,9 +50,12 @@ def _json_lines(text):
     return out
 
 
-def _run(binary, argv, timeout=900):
+def _run(binary, argv, timeout=900, prop=None):
     try:
-        p = subprocess.run([binary] + argv, stdout=subprocess.PIPE, stderr=subprocess.PIPE, text=True, timeout=timeout)
+        env = dict(os.environ)
+        if prop:
+            env["VERIF_PROP"] = prop
+        p = subprocess.run([binary] + argv, stdout=subprocess.PIPE, stderr=subprocess.PIPE, text=True, timeout=timeout, env=env)
         return p.returncode, p.stdout, p.stderr
     except subprocess.TimeoutExpired:
         return -999, "", "timeout"
@@ -71,7 +75,7 @@ def bounded_search(pid, known_kinds):
         for s in range(N_SEEDS):
             jobs.append(("store-search", ["store-search", str(base * 1000 + s)]))
     with concurrent.futures.ThreadPoolExecutor(max_workers=16) as ex:
-        results = list(ex.map(lambda j: (j, _run(binary, j[1])), jobs))
+        results = list(ex.map(lambda j: (j, _run(binary, j[1], prop=(pid if j[0] == "store-search" else None))), jobs))
     for (name, argv), (rc, out, err) in results:
         js = _json_lines(out)
         last = js[-1] if js else {}
